@@ -51,6 +51,8 @@ def model_to_driver(sched, gated=False):
             out.append(["CkStart" if gated else "LsCheckpoint", args[0]])
         elif gated and a in ("CkBarrier", "CkRelease", "CkPragma", "CkUnbarrier", "CkBump", "CkFinish"):
             out.append(["CkStep"])
+        elif gated and a == "CkCtxCancel":      # the request's context is cancelled while the checkpoint is parked, then it runs on (and fails)
+            out += [["CkCancel"], ["CkStep"]]
         # Bump, Ck* sub-steps, Crash: no driver step (internal to the calls above)
     return out
 
